@@ -122,6 +122,6 @@ PROPS = {
     "C10": dict(runs=[dict(CMP, judge=j_c10)], theorems=[]),
     "C11": dict(runs=[dict(CMP, judge=j_c11)], theorems=[]),
     "C12": dict(runs=[dict(DEC_ASM, judge=j_c12), dict(DEC_GO, judge=j_c12)], extra=[x_c12], theorems=[]),
-    "C13": dict(runs=[dict(XXH, judge=j_c13)], theorems=[]),
+    "C13": dict(runs=[dict(XXH, judge=j_c13)], theorems=T("C13", "oneshot", "stream", "stream_reset")),
     "C14": dict(runs=[dict(CMP, judge=j_c14b)], theorems=[]),
 }
